@@ -31,11 +31,37 @@ func RenameBlankIdentifier(sig *types.Signature) *types.Signature {
 // The given prefix is used to rename.
 func RenameBlankIdentifierWith(sig *types.Signature, prefix string) *types.Signature {
 	params := sig.Params()
-	if !hasBlankIdentifier(params) {
+	results := sig.Results()
+	if !hasBlankIdentifier(params) && !hasCapturingName(results) {
 		return sig
 	}
 	renamedTuple := rename(params, prefix)
-	return types.NewSignature(sig.Recv(), renamedTuple, sig.Results(), sig.Variadic())
+	if hasCapturingName(results) {
+		results = unnamed(results)
+	}
+	return types.NewSignature(sig.Recv(), renamedTuple, results, sig.Variadic())
+}
+
+// hasCapturingName reports whether one of the results bears a name that the generated wrappers use themselves:
+// f, or one of the names given to the renamed parameters.
+func hasCapturingName(results *types.Tuple) bool {
+	for i := 0; i < results.Len(); i++ {
+		name := results.At(i).Name()
+		if name == "f" || strings.HasPrefix(name, "param_") || strings.HasPrefix(name, "innerParam_") {
+			return true
+		}
+	}
+	return false
+}
+
+// unnamed returns the results without their names: either all the results of a function are named or none is.
+func unnamed(results *types.Tuple) *types.Tuple {
+	vars := make([]*types.Var, results.Len())
+	for i := range vars {
+		v := results.At(i)
+		vars[i] = types.NewVar(v.Pos(), v.Pkg(), "", v.Type())
+	}
+	return types.NewTuple(vars...)
 }
 
 func hasBlankIdentifier(tup *types.Tuple) bool {
